@@ -1,5 +1,6 @@
 import ComposeVerif.Model.Pipeline
 import ComposeVerif.Model.ConsistencyGlue
+import ComposeVerif.Model.NormalizeDeps
 /-!
 # C10 — the two checks inside the composed loader pipeline (round 6)
 
@@ -34,6 +35,11 @@ def ofGlue : Glue.Out → Out Proj
 /-- `loader.LoadWithContext`: the dictionary pipeline, the typed decode, the consistency check -/
 def loadProject (c : Cfg) (skipConsistencyCheck : Bool) (decode : Val.KVs → Proj) (docs : List Val.KVs) : Out Proj :=
   (load c docs).bind fun m => ofGlue (Glue.consistencyStage (tailOpts c skipConsistencyCheck) (decode m))
+
+/-- `depends_on` of a service as the typed project carries it: completed from `links`, the `service:` namespaces and
+`volumes_from` by `Normalize` — unless `SkipNormalization` is set, then it is what the files say -/
+def depsSeen (skipNormalization : Bool) (r : RawRefs) : List (String × Bool) :=
+  if skipNormalization then r.dependsOn else normDeps r
 
 /-! ## concrete values for the non-vacuity examples of `Props/C10Whole.lean` -/
 
